@@ -149,20 +149,26 @@ def explore(res, rng, n):
                      sig=f'C15:seeded-call-not-reproducible:{name}')
     # (2) random operation sequences: protocol conformance + global-seed replay + inert construction
     reqs, meta = [], []
-    for i in range(n):
-        k = rng.choice([2, 3, 4, 6])
-        gs = rng.choice([0, 3, 99, 2 ** 31 - 1, 2 ** 31, 3000000000, 2 ** 32 - 1])
-        seq = [('set', gs)]
-        for _ in range(k):
-            r = rng.random()
-            if r < 0.6:
-                seq.append(('api', rng.choice(names), rng.choice([None, None, None, 'x', 1.5])))
-            elif r < 0.8:
-                seq.append(('con', rng.choice(sorted(Cn)), rng.choice([None, None, 'x'])))
-            elif r < 0.9:
-                seq.append(('api', rng.choice(names), rng.choice([4, 17, 2 ** 31 + 5])))
-            else:
-                seq.append(('set', rng.choice([5, None, 2 ** 32 - 1])))
+    # corpus first: for every API, a call whose integer seed EQUALS the installed global seed, after something else has drawn
+    corpus_seqs = [[('set', 7), ('api', 'arNormal', None), ('api', nm, 7)] for nm in names]
+    for i in range(n + len(corpus_seqs)):
+        if i < len(corpus_seqs):
+            seq = corpus_seqs[i]
+            gs = 7
+        else:
+            k = rng.choice([2, 3, 4, 6])
+            gs = rng.choice([0, 3, 99, 2 ** 31 - 1, 2 ** 31, 3000000000, 2 ** 32 - 1])
+            seq = [('set', gs)]
+            for _ in range(k):
+                r = rng.random()
+                if r < 0.6:
+                    seq.append(('api', rng.choice(names), rng.choice([None, None, None, 'x', 1.5])))
+                elif r < 0.8:
+                    seq.append(('con', rng.choice(sorted(Cn)), rng.choice([None, None, 'x'])))
+                elif r < 0.9:
+                    seq.append(('api', rng.choice(names), rng.choice([4, 17, 2 ** 31 + 5, gs, gs])))      # incl. the installed global seed itself
+                else:
+                    seq.append(('set', rng.choice([5, None, 2 ** 32 - 1])))
         o1, t1 = run_sequence(seq, A, Cn, prior=31 + i)
         o2, t2 = run_sequence(seq, A, Cn, prior=977 + i)
         res.evaluations += 1
@@ -187,6 +193,28 @@ def explore(res, rng, n):
             if o3[:j] + o3[j + 1:] != o1:
                 fail(res, 'constructing a randomised object disturbed a seeded computation in progress', {'sequence': seq3}, None,
                      sig='C15:construction-disturbs:' + seq3[j][1])
+    # (3) long-lived objects: "setting the seed and repeating the same sequence of calls repeats the same outputs" also when the
+    # calls go to ONE transformation object that has been used before (its samples are a function of the stream only)
+    import numpy as np
+    from scipy import stats
+    from ffpack import rpm, lsg
+    from ffpack.config import globalConfig
+    nat_obj = rpm.NatafTransformation([stats.norm(), stats.expon(), stats.norm(1, 2)], [[1.0, 0.3, 0.0], [0.3, 1.0, 0.2], [0.0, 0.2, 1.0]])
+    for sd in (5, 0, 2 ** 31):
+        runs = []
+        for rep in range(3):
+            np.random.seed(1000 + rep)
+            np.random.uniform(size=rep + 1)
+            globalConfig.setSeed(sd)
+            a = [list(map(float, nat_obj.getSample())) for _ in range(rep + 1)][0]
+            w = lsg.randomWalkUniform(4, 2)
+            runs.append((a, json.dumps(w, default=lambda o: o.tolist())))
+        globalConfig.seed = None
+        res.evaluations += 1
+        res.stat('long_lived_object')
+        if any(r[0] != runs[0][0] for r in runs):
+            fail(res, 'one transformation object: the first sample after setSeed(s) differs between repetitions', {'seed': sd},
+                 [r[0] for r in runs], sig='C15:long-lived-object:NatafTransformation.getSample')
     for case, a in zip(meta, core.driver_batch(reqs)):
         if a != 'ok':
             ops = [op for op in case['sequence']]
